@@ -5,6 +5,7 @@ refinement of the v1-layout query path (`isAuthoritativeV1`, `findAnswerV1`, `fi
 -/
 import DnsVerif.Model.Serve
 import DnsVerif.Spec.Answer
+import DnsVerif.Proofs.ServeKey
 
 namespace DnsVerif.ServeRefine
 open DnsVerif DnsVerif.Codec DnsVerif.Serve DnsVerif.Name
@@ -1825,20 +1826,26 @@ theorem model_cands (rs : List Rec) (t : Nat) (ht : t = 1 ∨ t = 28) :
           and_false, decide_false, Bool.false_eq_true]
         simpa [rowFields] using ih
 
-theorem hasAddr_target (G : List OutAddrs) (hG : ∀ g ∈ G, ∀ lab ∈ g.owner, LabelOK lab)
-    (tn : List Bytes) (hn : NameOK tn) (t : Nat) (acc : List AddrGroup) (hacc : ∀ g ∈ acc, g.name ≠ pack tn) :
+theorem toLower_pack_group (G : List OutAddrs) (hG : ∀ g ∈ G, ∀ lab ∈ g.owner, LabelOK lab) :
+    ∀ g ∈ G, toLower (ofSpecGroup g).name = pack g.owner := fun g hg => toLower_pack g.owner (hG g hg)
+
+/-- `HasRecord` for a target written `tn` in the rdata whose lower-cased wire form is that of `tl` -/
+theorem hasAddr_target_ci (G : List OutAddrs) (hG : ∀ g ∈ G, ∀ lab ∈ g.owner, LabelOK lab)
+    (tn tl : List Bytes) (hn : NameOK tl) (hp : toLower (pack tn) = pack tl) (t : Nat) (acc : List AddrGroup)
+    (hacc : ∀ g ∈ acc, toLower g.name ≠ pack tl) :
     hasAddr (G.map ofSpecGroup) (pack tn) t acc =
-      G.any fun g => decide (g.owner = tn ∧ g.type = t ∧ servedS g = true) := by
+      G.any fun g => decide (g.owner = tl ∧ g.type = t ∧ servedS g = true) := by
   unfold hasAddr
-  rw [List.any_append]
-  have h2 : (acc.any fun g => decide (g.name = pack tn ∧ g.type = t ∧ (g.cands.any fun c => decide (c.weight > 0)) = true)) = false := by
+  rw [List.any_append, hp]
+  have h2 : (acc.any fun g => decide (toLower g.name = pack tl ∧ g.type = t ∧ (g.cands.any fun c => decide (c.weight > 0)) = true)) = false := by
     rw [List.any_eq_false]
     intro g hg
     simp [hacc g hg]
   rw [h2, Bool.or_false, List.any_map]
   rw [Bool.eq_iff_iff, List.any_eq_true, List.any_eq_true]
-  have hinj : ∀ g ∈ G, (pack g.owner = pack tn ↔ g.owner = tn) := fun g hg =>
-    ⟨pack_injective _ _ (hG g hg) hn.1, fun h => by rw [h]⟩
+  have hinj : ∀ g ∈ G, (toLower (ofSpecGroup g).name = pack tl ↔ g.owner = tl) := fun g hg => by
+    rw [toLower_pack_group G hG g hg]
+    exact ⟨pack_injective _ _ (hG g hg) hn.1, fun h => by rw [h]⟩
   have hserved : ∀ g : OutAddrs, ((ofSpecGroup g).cands.any fun c => decide (c.weight > 0)) = servedS g := by
     intro g; simp only [ofSpecGroup, servedS, List.any_map]; rfl
   constructor
@@ -1851,6 +1858,13 @@ theorem hasAddr_target (G : List OutAddrs) (hG : ∀ g ∈ G, ∀ lab ∈ g.owne
     simp only [Function.comp, decide_eq_true_eq] at hp ⊢
     exact ⟨(hinj g hg).mpr hp.1, hp.2.1, (hserved g).symm ▸ hp.2.2⟩
 
+theorem hasAddr_target (G : List OutAddrs) (hG : ∀ g ∈ G, ∀ lab ∈ g.owner, LabelOK lab)
+    (tn : List Bytes) (hn : NameOK tn) (t : Nat) (acc : List AddrGroup)
+    (hacc : ∀ g ∈ acc, toLower g.name ≠ pack tn) :
+    hasAddr (G.map ofSpecGroup) (pack tn) t acc =
+      G.any fun g => decide (g.owner = tn ∧ g.type = t ∧ servedS g = true) :=
+  hasAddr_target_ci G hG tn tn hn (toLower_pack tn hn.1) t acc hacc
+
 theorem stepX_none (v : View) (qc : Nat) (P : Bytes → Nat → List AddrGroup → Bool) (acc : List AddrGroup)
     (rr : OutRR) (ht : rawTarget rr = none) : stepX v qc P acc (ofSpecRR rr) = acc := by
   unfold stepX
@@ -1861,7 +1875,7 @@ theorem stepX_target (b : Backend) (hb : b ≠ .rdbV2) (s : Store) (recs : List 
     (h0 : RepresentsAt s recs [0, 0]) (hl : RepresentsAt s recs l) (hok : ∀ r ∈ recs, RecOK r)
     (qc : Nat) (G : List OutAddrs) (hG : ∀ g ∈ G, ∀ lab ∈ g.owner, LabelOK lab)
     (acc : List AddrGroup) (rr : OutRR) (tn : List Bytes) (ht : rawTarget rr = some tn) (hn : NameOK tn)
-    (hacc : ∀ g ∈ acc, g.name ≠ pack tn) :
+    (hacc : ∀ g ∈ acc, toLower g.name ≠ pack tn) :
     stepX ⟨b, s, l⟩ qc (fun name t extra => hasAddr (G.map ofSpecGroup) name t extra) acc (ofSpecRR rr)
       = acc ++ (addGroups (viewSort l recs) l qc G tn).map ofSpecGroup := by
   unfold stepX
@@ -1898,7 +1912,7 @@ theorem fold_additional (b : Backend) (hb : b ≠ .rdbV2) (s : Store) (recs : Li
     (qc : Nat) (G : List OutAddrs) (hG : ∀ g ∈ G, ∀ lab ∈ g.owner, LabelOK lab) :
     ∀ (rrs : List OutRR) (acc : List AddrGroup),
       (∀ t ∈ rrs.filterMap rawTarget, NameOK t) → (rrs.filterMap rawTarget).Nodup →
-      (∀ g ∈ acc, ∀ t ∈ rrs.filterMap rawTarget, g.name ≠ pack t) →
+      (∀ g ∈ acc, ∀ t ∈ rrs.filterMap rawTarget, toLower g.name ≠ pack t) →
       (rrs.map ofSpecRR).foldl
           (stepX ⟨b, s, l⟩ qc (fun name t extra => hasAddr (G.map ofSpecGroup) name t extra)) acc
         = acc ++ ((rrs.filterMap rawTarget).flatMap (addGroups (viewSort l recs) l qc G)).map ofSpecGroup := by
@@ -1925,8 +1939,8 @@ theorem fold_additional (b : Backend) (hb : b ≠ .rdbV2) (s : Store) (recs : Li
         · exact hacc g hg t (List.mem_cons_of_mem _ htm)
         · obtain ⟨g', hg', rfl⟩ := List.mem_map.mp hg
           have ho := addGroups_owner _ _ _ _ _ g' hg'
-          show pack g'.owner ≠ pack t
-          rw [ho]
+          show toLower (pack g'.owner) ≠ pack t
+          rw [ho, toLower_pack tn hn.1]
           intro he
           have := pack_injective _ _ hn.1 (hok' t (List.mem_cons_of_mem _ htm)).1 he
           exact (List.nodup_cons.mp hnd).1 (this ▸ htm)
@@ -2036,6 +2050,194 @@ theorem serve_v1_full (b : Backend) (hb : b ≠ .rdbV2) (s : Store) (recs : List
   rw [modelExtra_refines b hb s recs l h0 hl hwf.1 qc _
     (fun g hg lab hlab => hq.1 lab ((answer_group_owner _ q qt qc m l g hg) ▸ hlab)) _ _ ht,
     answer_additional ⟨viewSort l recs, maps, subnets⟩ q qt qc m l]
+
+/-! ### the additional section when the rdata spells a target in any letter case
+
+Since `HasRecord` compares owner names case-insensitively, the handler's additional section is the
+spec's for targets written in any letter case — up to the letter case of the additional owner names
+themselves (the handler copies the rdata's spelling into the owner, the spec lower-cases). -/
+
+/-- the target as the spec sees it (`targetsOf`): NS / MX targets lower-cased -/
+def lowTarget (rr : OutRR) : Option (List Bytes) :=
+  if rr.type = 2 then (nameLabels rr.rdata).map (·.map toLower)
+  else if rr.type = 15 then (nameLabels (rr.rdata.drop 2)).map (·.map toLower)
+  else if rr.type = 65 then some rr.owner
+  else none
+
+theorem targetsOf_eq (rrs : List OutRR) : targetsOf rrs = rrs.filterMap lowTarget := rfl
+
+theorem lowTarget_none (rr : OutRR) (h : rawTarget rr = none) : lowTarget rr = none := by
+  unfold rawTarget at h
+  unfold lowTarget
+  by_cases h2 : rr.type = 2
+  · rw [if_pos h2] at h ⊢; rw [h]; rfl
+  · rw [if_neg h2] at h ⊢
+    by_cases h15 : rr.type = 15
+    · rw [if_pos h15] at h ⊢; rw [h]; rfl
+    · rw [if_neg h15] at h ⊢
+      by_cases h65 : rr.type = 65
+      · rw [if_pos h65] at h; cases h
+      · rw [if_neg h65]
+
+theorem lowTarget_some (rr : OutRR) (tn : List Bytes) (h : rawTarget rr = some tn) :
+    ∃ tl, lowTarget rr = some tl ∧ ((∀ lab ∈ tl, LabelOK lab) → tn.map toLower = tl) := by
+  unfold rawTarget at h
+  unfold lowTarget
+  by_cases h2 : rr.type = 2
+  · rw [if_pos h2] at h ⊢; rw [h]; exact ⟨_, rfl, fun _ => rfl⟩
+  · rw [if_neg h2] at h ⊢
+    by_cases h15 : rr.type = 15
+    · rw [if_pos h15] at h ⊢; rw [h]; exact ⟨_, rfl, fun _ => rfl⟩
+    · rw [if_neg h15] at h ⊢
+      by_cases h65 : rr.type = 65
+      · rw [if_pos h65] at h ⊢
+        cases h
+        exact ⟨_, rfl, fun hok => map_toLower_id _ hok⟩
+      · rw [if_neg h65] at h; cases h
+
+theorem toLower_length (b : Bytes) : (toLower b).length = b.length := by
+  unfold toLower; rw [List.length_map]
+
+theorem toLower_pack_map (t : List Bytes) (h : ∀ lab ∈ t, lab.length < 64) :
+    toLower (pack t) = pack (t.map toLower) := by
+  induction t with
+  | nil => decide
+  | cons lab rest ih =>
+    have hl := h lab (by simp)
+    rw [List.map_cons, pack_cons, pack_cons, ← ih (fun x hx => h x (List.mem_cons_of_mem _ hx)), toLower_length]
+    have h1 : lowerByte (UInt8.ofNat lab.length) = UInt8.ofNat lab.length :=
+      lowerByte_small _ (by rw [toNat_ofNat_lt _ (by omega)]; exact hl)
+    unfold toLower
+    rw [List.map_cons, List.map_append, h1]
+
+/-- the wire form of a target whose lower-cased labels are storable -/
+theorem toLower_pack_of (tn tl : List Bytes) (he : tn.map toLower = tl) (hn : NameOK tl) :
+    toLower (pack tn) = pack tl := by
+  rw [← he]
+  apply toLower_pack_map
+  intro lab hlab
+  have := (hn.1 (toLower lab) (he ▸ List.mem_map_of_mem hlab)).2.1
+  rwa [toLower_length] at this
+
+/-- a spec group under the owner spelling the rdata used -/
+def reown (tn : List Bytes) (g : OutAddrs) : AddrGroup := ofSpecGroup { g with owner := tn }
+
+theorem stepX_target_ci (b : Backend) (hb : b ≠ .rdbV2) (s : Store) (recs : List Rec) (l : Bytes)
+    (h0 : RepresentsAt s recs [0, 0]) (hl : RepresentsAt s recs l) (hok : ∀ r ∈ recs, RecOK r)
+    (qc : Nat) (G : List OutAddrs) (hG : ∀ g ∈ G, ∀ lab ∈ g.owner, LabelOK lab)
+    (acc : List AddrGroup) (rr : OutRR) (tn tl : List Bytes) (ht : rawTarget rr = some tn) (hn : NameOK tl)
+    (hp : toLower (pack tn) = pack tl) (hacc : ∀ g ∈ acc, toLower g.name ≠ pack tl) :
+    stepX ⟨b, s, l⟩ qc (fun name t extra => hasAddr (G.map ofSpecGroup) name t extra) acc (ofSpecRR rr)
+      = acc ++ (addGroups (viewSort l recs) l qc G tl).map (reown tn) := by
+  unfold stepX
+  rw [additionalTarget_ofSpec, ht]
+  simp only [Option.map_some]
+  simp only [hasAddr_target_ci G hG tn tl hn hp 1 acc hacc, hasAddr_target_ci G hG tn tl hn hp 28 acc hacc,
+    hp, rowsOf_v1 b hb s recs l h0 hl tl hn, parsed_rows _ (recOK_visRecs hok l tl),
+    model_cands _ 1 (Or.inl rfl), model_cands _ 28 (Or.inr rfl)]
+  unfold addGroups
+  simp only [candS_viewSort]
+  generalize (G.any fun g => decide (g.owner = tl ∧ g.type = 1 ∧ servedS g = true)) = p1
+  generalize (G.any fun g => decide (g.owner = tl ∧ g.type = 28 ∧ servedS g = true)) = p28
+  generalize (((visRecs recs l tl).filter fun r => decide (r.wild = false ∧ r.type = 1)).map fun r =>
+    (r.ttl, r.weight, r.rdata)) = c1
+  generalize (((visRecs recs l tl).filter fun r => decide (r.wild = false ∧ r.type = 28)).map fun r =>
+    (r.ttl, r.weight, r.rdata)) = c28
+  cases p1 <;> cases p28 <;> cases c1 <;> cases c28 <;> simp [reown, ofSpecGroup]
+
+theorem lowGroup_reown (tn tl : List Bytes) (hp : toLower (pack tn) = pack tl) (gs : List OutAddrs)
+    (ho : ∀ g ∈ gs, g.owner = tl) : (gs.map (reown tn)).map ServeKey.lowGroup = gs.map ofSpecGroup := by
+  rw [List.map_map]
+  apply List.map_congr_left
+  intro g hg
+  show ServeKey.lowGroup (reown tn g) = ofSpecGroup g
+  unfold ServeKey.lowGroup reown ofSpecGroup
+  simp only [hp, ho g hg]
+
+theorem fold_additional_ci (b : Backend) (hb : b ≠ .rdbV2) (s : Store) (recs : List Rec) (l : Bytes)
+    (h0 : RepresentsAt s recs [0, 0]) (hl : RepresentsAt s recs l) (hok : ∀ r ∈ recs, RecOK r)
+    (qc : Nat) (G : List OutAddrs) (hG : ∀ g ∈ G, ∀ lab ∈ g.owner, LabelOK lab) :
+    ∀ (rrs : List OutRR) (acc : List AddrGroup),
+      (∀ t ∈ targetsOf rrs, NameOK t) → (targetsOf rrs).Nodup →
+      (∀ g ∈ acc, ∀ t ∈ targetsOf rrs, toLower g.name ≠ pack t) →
+      ((rrs.map ofSpecRR).foldl
+          (stepX ⟨b, s, l⟩ qc (fun name t extra => hasAddr (G.map ofSpecGroup) name t extra)) acc).map
+          ServeKey.lowGroup
+        = acc.map ServeKey.lowGroup ++
+            ((targetsOf rrs).flatMap (addGroups (viewSort l recs) l qc G)).map ofSpecGroup := by
+  intro rrs
+  induction rrs with
+  | nil => intro acc _ _ _; simp [targetsOf]
+  | cons rr rrs ih =>
+    intro acc hok' hnd hacc
+    rw [List.map_cons, List.foldl_cons]
+    rw [targetsOf_eq] at hok' hnd hacc
+    cases ht : rawTarget rr with
+    | none =>
+      rw [List.filterMap_cons_none (lowTarget_none rr ht), ← targetsOf_eq] at hok' hnd hacc
+      rw [stepX_none _ _ _ _ _ ht, targetsOf_eq, List.filterMap_cons_none (lowTarget_none rr ht), ← targetsOf_eq]
+      exact ih acc hok' hnd hacc
+    | some tn =>
+      obtain ⟨tl, hlt, he⟩ := lowTarget_some rr tn ht
+      rw [List.filterMap_cons_some hlt, ← targetsOf_eq] at hok' hnd hacc
+      have hn : NameOK tl := hok' tl (by simp)
+      have hp : toLower (pack tn) = pack tl := toLower_pack_of tn tl (he hn.1) hn
+      rw [stepX_target_ci b hb s recs l h0 hl hok qc G hG acc rr tn tl ht hn hp
+        (fun g hg => hacc g hg tl (by simp))]
+      rw [ih _ (fun t h => hok' t (List.mem_cons_of_mem _ h)) (List.nodup_cons.mp hnd).2]
+      · rw [targetsOf_eq (rr :: rrs), List.filterMap_cons_some hlt, ← targetsOf_eq, List.flatMap_cons,
+          List.map_append, List.map_append, List.append_assoc,
+          lowGroup_reown tn tl hp _ (addGroups_owner _ _ _ _ _)]
+      · intro g hg t htm
+        rcases List.mem_append.mp hg with hg | hg
+        · exact hacc g hg t (List.mem_cons_of_mem _ htm)
+        · obtain ⟨g', hg', rfl⟩ := List.mem_map.mp hg
+          show toLower (pack tn) ≠ pack t
+          rw [hp]
+          intro he'
+          have := pack_injective _ _ hn.1 (hok' t (List.mem_cons_of_mem _ htm)).1 he'
+          exact (List.nodup_cons.mp hnd).1 (this ▸ htm)
+
+/-- the targets of the additional section, lower-cased, are storable names and pairwise distinct
+(the rdata may spell them in any letter case) -/
+def TargetsLowOK (rrs : List OutRR) : Prop :=
+  (∀ t ∈ targetsOf rrs, NameOK t) ∧ (targetsOf rrs).Nodup
+
+instance (rrs : List OutRR) : Decidable (TargetsLowOK rrs) := by unfold TargetsLowOK; infer_instance
+
+theorem modelExtra_refines_ci (b : Backend) (hb : b ≠ .rdbV2) (s : Store) (recs : List Rec) (l : Bytes)
+    (h0 : RepresentsAt s recs [0, 0]) (hl : RepresentsAt s recs l) (hok : ∀ r ∈ recs, RecOK r)
+    (qc : Nat) (G : List OutAddrs) (hG : ∀ g ∈ G, ∀ lab ∈ g.owner, LabelOK lab)
+    (plain authority : List OutRR) (ht : TargetsLowOK (plain ++ authority)) :
+    (modelExtra ⟨b, s, l⟩ qc (plain.map ofSpecRR) (G.map ofSpecGroup) (authority.map ofSpecRR)).map
+        ServeKey.lowGroup =
+      (additionalOf (viewSort l recs) l qc G (targetsOf (plain ++ authority))).map ofSpecGroup := by
+  unfold modelExtra
+  rw [additionalFor_eq, additionalFor_eq, ← List.foldl_append, ← List.map_append,
+    fold_additional_ci b hb s recs l h0 hl hok qc G hG (plain ++ authority) [] ht.1 ht.2
+      (by intro g hg; cases hg),
+    additionalOf_eq, eraseDups_nodup _ ht.2, List.map_nil, List.nil_append]
+
+/-- `serve` on a v1-layout store is `Spec.answer`; the additional section up to the letter case of
+its owner names, for targets the rdata spells in any letter case -/
+theorem serve_v1_full_ci (b : Backend) (hb : b ≠ .rdbV2) (s : Store) (recs : List Rec) (l : Bytes)
+    (h0 : RepresentsAt s recs [0, 0]) (hl : RepresentsAt s recs l) (hwf : WellFormed recs)
+    (q : List Bytes) (hq : NameOK q) (qt qc m : Nat) (maps : List MapDecl) (subnets : List SubnetDecl)
+    (ht : TargetsLowOK ((Spec.answer ⟨viewSort l recs, maps, subnets⟩ q qt qc m l).answer ++
+                        (Spec.answer ⟨viewSort l recs, maps, subnets⟩ q qt qc m l).authority)) :
+    ∃ extra, serve ⟨b, s, l⟩ ⟨pack q, pack q, qt, qc, m⟩ =
+        .reply { ofSpec (Spec.answer ⟨viewSort l recs, maps, subnets⟩ q qt qc m l) with extra := extra } ∧
+      extra.map ServeKey.lowGroup =
+        (Spec.answer ⟨viewSort l recs, maps, subnets⟩ q qt qc m l).additional.map ofSpecGroup := by
+  refine ⟨_, serve_v1_core b hb s recs l h0 hl hwf q hq qt qc m maps subnets, ?_⟩
+  rw [modelExtra_refines_ci b hb s recs l h0 hl hwf.1 qc _
+    (fun g hg lab hlab => hq.1 lab ((answer_group_owner _ q qt qc m l g hg) ▸ hlab)) _ _ ht,
+    answer_additional ⟨viewSort l recs, maps, subnets⟩ q qt qc m l]
+
+theorem targetsLowOK_of_targetsOK (rrs : List OutRR) (h : TargetsOK rrs) : TargetsLowOK rrs := by
+  unfold TargetsLowOK
+  rw [targetsOf_raw rrs h.1]
+  exact h
 
 instance (rrs : List OutRR) : Decidable (TargetsOK rrs) := by unfold TargetsOK; infer_instance
 
